@@ -1,6 +1,6 @@
 (* C13 -- The three HTML policies differ only at the HTML elements (partial).  Property theorems only. *)
 From Rimu Require Import Base Regex RegexParse Str Types Tables Guards State Inline Block
-  Frame FrameBlock FrameInst OptionsLemmas MiscLemmas Plain PlainDoc HtmlTag ParaDoc.
+  Frame FrameBlock FrameInst OptionsLemmas MiscLemmas Plain PlainDoc HtmlTag ParaDoc ListDoc.
 
 (* the policy is a function of the two low bits of the safe mode only *)
 Theorem C13_policy_bits : forall m,
@@ -53,3 +53,14 @@ Theorem C13_tag_document : forall n s c pre name post,
   Ok ($"<p>" ++ ((c :: pre) ++ htmlSafeModeFilter (ienv_of s) (60 :: name ++ [62]) ++ post) ++ $"</p>", s).
 Proof. exact tag_document. Qed.
 Print Assumptions C13_tag_document.
+
+(* through rimu.render, for every option set of the call: with safeMode 1, 2, 3 (and equal higher bits) s1 differs in the mode
+   only, so the three documents differ exactly by F *)
+Theorem C13_tag_api : forall n o s s1 c pre name post,
+  updateFrom o (if (s_mode s =? -1)%Z then document_init s else s) = Ok (tt, s1) -> quiet_default s1 ->
+  In c word_first -> RegexAnalysis.over word2_alphabet (c :: pre) -> name_ok2 name -> RegexAnalysis.over word2_alphabet name ->
+  RegexAnalysis.over word2_alphabet post ->
+  api_render (S (S (S (S (S (S n)))))) ((c :: pre) ++ 60 :: name ++ 62 :: post) o s =
+  Ok ($"<p>" ++ ((c :: pre) ++ htmlSafeModeFilter (ienv_of s1) (60 :: name ++ [62]) ++ post) ++ $"</p>", s1).
+Proof. exact tag_api. Qed.
+Print Assumptions C13_tag_api.
